@@ -99,6 +99,28 @@ def ls4(F, R):
                             good = has_sub(a, lambda q: q[0] == "place" and "as:Ok" in q[2] and q[1][0] == "call" and q[1][3] == b)
                             if not good:
                                 problems.append("after next_cluster returned Ok(n) the walk continues at cluster_to_block(%s) instead of the cluster n just read from the FAT" % tstr(a))
+                if arm == "Fat32":
+                    # ... and on nothing else: no exit of the walk loop is taken on a count.  (A bound that is not stated in terms
+                    # of the volume's cluster_count cannot be known to exceed every chain - "65536 entries / bytes per cluster"
+                    # stopped lookups after 2048 entries while entry creation went on to the end: duplicate names.)
+                    from .ev import cmp_forms
+                    lps = sorted([(h_, body_) for (h_, body_, _bk) in fn.loops() if b in body_], key=lambda x: -len(x[1]))
+                    if lps:
+                        body_ = lps[0][1]
+                        for (gb, gi, g) in all_guards(fn):
+                            if gb not in body_ or fn.land(fn.succ(gb)[gi][0]) in body_:
+                                continue
+                            forms = cmp_forms(g)
+                            if not forms or g.kind != "bool":
+                                continue
+                            o_, a_, b_, _t = forms[0]
+                            isint = lambda z: (strip_refs(z)[0] == "c" and isinstance(strip_refs(z)[1], int) and not isinstance(strip_refs(z)[1], bool)) or (strip_refs(z)[0] == "var" and isinstance(strip_refs(z)[1], int) and fn.locals[strip_refs(z)[1]]["ty"] in ("u8", "u16", "u32", "u64", "usize", "i32", "i64", "isize"))
+                            if not (isint(a_) or isint(b_)):
+                                continue
+                            subs_ = _all_subterms_through_vars(fn, a_) + _all_subterms_through_vars(fn, b_)
+                            if any(q[0] == "place" and last_field(q) == "cluster_count" for q in subs_):
+                                continue
+                            problems.append("the FAT32 walk can end on a count (%s) instead of the chain's end: entries behind that point are never looked at" % tstr(g.term)[:80])
                 # error handling of this next_cluster: the Err edges other than EndOfFile must return
                 dest = t["dest"]["l"]
             # the blocks of a cluster (of the fixed root) are enumerated by BlockIdx::range: an extent that cannot be read off is not
